@@ -670,7 +670,27 @@ func chunkHeader(c chunkenc.Chunk) int {
 	panic("unexpected chunk type")
 }
 
+// safely runs f; a panic of the implementation under test becomes a failure of case id (decided on
+// the Go side) instead of a crash of the harness.
+func safely(m *gallina.Meta, id int, shape string, f func()) {
+	defer func() {
+		if r := recover(); r != nil {
+			what := fmt.Sprint("the implementation panicked: ", r)
+			m.GoViol = append(m.GoViol, gallina.GoViolation{ID: fmt.Sprint(id), Shape: shape, What: what})
+			if _, ok := m.Cases[fmt.Sprint(id)]; !ok {
+				m.Case(id, map[string]string{"shape": shape, "panic": what, "encoding": stTag()})
+			}
+			m.Hit("panic")
+		}
+	}()
+	f()
+}
+
 func emitChunkCase(cf *gallina.CaseFile, m *gallina.Meta, id int, float bool, mode int, ops []hop, ivs [][2]int64, shape string) {
+	safely(m, id, shape, func() { emitChunkCase1(cf, m, id, float, mode, ops, ivs, shape) })
+}
+
+func emitChunkCase1(cf *gallina.CaseFile, m *gallina.Meta, id int, float bool, mode int, ops []hop, ivs [][2]int64, shape string) {
 	chks := appendAll(float, ops)
 	desc := chunkDesc{Shape: shape, Kind: map[bool]string{false: "int", true: "float"}[float], Read: fmt.Sprint(mode)}
 	var e enc
@@ -779,6 +799,10 @@ func (s chunkSeries) Iterator(it chunkenc.Iterator) chunkenc.Iterator { return s
 // emitMergeCase appends every series through the real appenders and feeds every resulting chunk as one
 // input to the real chained sample iterator (the way mergedOOOChunks / ChainedSeriesMerge do).
 func emitMergeCase(cf *gallina.CaseFile, m *gallina.Meta, id int, float bool, mode, via int, series [][]hop, shape string) {
+	safely(m, id, shape, func() { emitMergeCase1(cf, m, id, float, mode, via, series, shape) })
+}
+
+func emitMergeCase1(cf *gallina.CaseFile, m *gallina.Meta, id int, float bool, mode, via int, series [][]hop, shape string) {
 	desc := mergeDesc{Shape: shape, Kind: map[bool]string{false: "int", true: "float"}[float], Read: fmt.Sprint(mode),
 		Via: []string{"ChainSampleIteratorFromIterables", "ChainSampleIteratorFromIterators", "ChainedSeriesMerge"}[via]}
 	var e enc
@@ -1304,13 +1328,19 @@ func (d *dbRun) close() {
 
 // genDB runs one generated history and emits its query cases; returns the next free id.
 func genDB(r *gen.Rand, cf *gallina.CaseFile, m *gallina.Meta, base string, id int, nq int) int {
+	// a panic of the database (e.g. in Commit) fails the first case of this history; the database is
+	// then abandoned without Close (it may hold locks)
+	safely(m, id, "query", func() { genDB1(r, cf, m, base, id, nq) })
+	return id + nq
+}
+
+func genDB1(r *gen.Rand, cf *gallina.CaseFile, m *gallina.Meta, base string, id int, nq int) int {
 	o := tsdbx.Options{BlockRange: r.PickI64(1000, 2000, 5000), Overlapping: true}
 	if r.Chance(3, 4) {
 		o.OOOWindow = 20 * o.BlockRange
 		o.OOOCapMax = r.PickI64(4, 6, 32)
 	}
 	d := openRun(base, o)
-	defer d.close()
 	w, alt := newWorld(r), newWorld(r)
 	float := r.Chance(1, 4)
 	n := 8 + r.Intn(30)
@@ -1401,6 +1431,7 @@ func genDB(r *gen.Rand, cf *gallina.CaseFile, m *gallina.Meta, base string, id i
 		d.query(cf, m, id, mint, maxt)
 		id++
 	}
+	d.close()
 	return id
 }
 
@@ -1511,13 +1542,15 @@ func corpus(cf *gallina.CaseFile, m *gallina.Meta, base string, id int) int {
 	}
 	useST = true
 	for _, seq := range [][]hop{posDown, negDown} {
-		d = openRun(base, tsdbx.Options{BlockRange: 100000})
-		for _, op := range seq {
-			d.appendOne(op.t, op.h, true)
-		}
-		d.query(cf, m, id, math.MinInt64, math.MaxInt64)
+		safely(m, id, "query", func() {
+			d := openRun(base, tsdbx.Options{BlockRange: 100000})
+			for _, op := range seq {
+				d.appendOne(op.t, op.h, true)
+			}
+			d.query(cf, m, id, math.MinInt64, math.MaxInt64)
+			d.close()
+		})
 		id++
-		d.close()
 	}
 	useST = false
 	return id
